@@ -394,3 +394,19 @@ def run(chk, tier):
                         nfl += 1
                         chk.ob("R5", "float local in %s [%s]" % (key, config), False, "floating-point value in a reachable body", where=b["span"][0])
             chk.ob("R5", "%s[%s]|no floating-point locals" % (cname, config), nfl == 0, "", nontrivial=False)
+            # addresses differ between profiles and targets (stack layout, alignment of locals): no pointer-to-integer cast and
+            # no address-inspecting library call in the crate's own bodies
+            from .c19 import ADDRESS_FNS
+            addr = []
+            for key, b in crate.bodies.items():
+                if b["krate"] != cname:
+                    continue
+                for _, s_ in sq.iter_stmts(b):
+                    if s_[0] == "a" and s_[2][0] == "cast" and ("PointerExpose" in s_[2][1] or "PointerWithExposed" in s_[2][1]):
+                        addr.append("%s cast in %s" % (s_[2][1], b["def"]))
+                for _, t_ in sq.iter_calls(b):
+                    d_ = t_[1].get("rdef") or t_[1].get("def") or ""
+                    if ADDRESS_FNS.search(d_):
+                        addr.append("%s called in %s" % (d_.split("::")[-1], b["def"]))
+            chk.ob("R5", "%s[%s]|nothing depends on an address (pointer-to-integer casts, align_offset, ...)" % (cname, config), not addr,
+                   "address-dependent: %s" % sorted(set(addr))[:4], nontrivial=bool(addr))
